@@ -244,7 +244,7 @@ public:
 
     template<typename ... Args>
     future(__SetReferenceTag,  ptr_storage v)
-        :future_common(&awaiter::disabled, State::value)
+        :future_common(&awaiter::disabled, State::value_ref)
         ,_ptr_value(v) {}
 
 
